@@ -202,10 +202,14 @@ func (st *CheckStats) record(raw []byte, o *Obs, c any) {
 			h := sha256.Sum256(raw)
 			st.hashes[binary.LittleEndian.Uint64(h[:8])] = struct{}{}
 		}
-		if len(st.Samples) < maxSamples && len(raw) < 6000 {
-			var v any
-			_ = json.Unmarshal(raw, &v)
-			st.Samples = append(st.Samples, v)
+		if len(st.Samples) < maxSamples {
+			if len(raw) < 6000 {
+				var v any
+				_ = json.Unmarshal(raw, &v)
+				st.Samples = append(st.Samples, v)
+			} else {
+				st.Samples = append(st.Samples, map[string]any{"note": "case too large to quote in full", "bytes": len(raw), "json_prefix": string(raw[:2500])})
+			}
 		}
 	}
 }
